@@ -1,0 +1,4 @@
+// Package verifbridge re-exports selected internal symbols for the external
+// verification harness. All of its code is guarded by the "verif" build tag;
+// without the tag the package is empty.
+package verifbridge
